@@ -1318,6 +1318,11 @@ func c02RunLoopW(c *vt.Ctx, s c02Scenario, witness *string) {
 	default:
 		c.Label("stack:v6")
 	}
+	if s.Node.Lenient {
+		c.Label("describe-by-id:lenient")
+	} else {
+		c.Label("describe-by-id:strict")
+	}
 	if s.Node.Trunk {
 		c.Label("flavor:trunk")
 	}
@@ -1351,7 +1356,7 @@ func c02RunLoopW(c *vt.Ctx, s c02Scenario, witness *string) {
 
 		orphans := w.c08Orphans(f)
 		if len(orphans) > 0 {
-			if cls := w.c08OrphanClass(orphans); cls != "" {
+			if cls := w.c08OrphanClass(orphans, f); cls != "" {
 				c.Label("known:" + cls)
 			} else {
 				w.fail("C08 rollback: interface(s) %v were created by a controller call, are not attached to the instance and are not recorded anywhere (leaked)\nrecord: %s", orphans, c02RenderRecord(f.node.Status.NetworkInterfaces))
@@ -1472,10 +1477,13 @@ func (w *c02World) c08DoubleFaultOrphan(ids []string) bool {
 
 // c08OrphanClass returns the id of the listed finding every leaked interface belongs to:
 // C08-double-fault-orphan (never persisted: rollback delete and record write both failed)
-// or C08-sync-drops-detached-eni (persisted as Deleting after a failed rollback delete,
-// then dropped from the record by a full sync because the by-id query is also filtered
-// by instance id and a detached interface has none).
-func (w *c02World) c08OrphanClass(ids []string) string {
+// or C08-sync-drops-detached-eni (persisted, e.g. as Deleting after a failed rollback
+// delete, then dropped from the record by a full sync without being deleted). That
+// finding only applies where the full sync cannot see the detached interface: under the
+// strict Describe semantics (by-id query also filtered by instance id), or for kinds other
+// than Secondary, which the sync drops without looking. Under the lenient semantics a
+// leaked Secondary interface is a violation.
+func (w *c02World) c08OrphanClass(ids []string, f *c08Final) string {
 	if c08Known("C08-double-fault-orphan") && w.c08DoubleFaultOrphan(ids) {
 		return "C08-double-fault-orphan"
 	}
@@ -1485,7 +1493,16 @@ func (w *c02World) c08OrphanClass(ids []string) string {
 	for _, id := range ids {
 		// recorded once, dropped from the record later, still exists detached: only the full
 		// sync removes a record entry without deleting the interface
-		if !w.everRecorded[id] && !(c08Known("C08-double-fault-orphan") && w.c08DoubleFaultOrphan([]string{id})) {
+		if c08Known("C08-double-fault-orphan") && w.c08DoubleFaultOrphan([]string{id}) {
+			continue
+		}
+		invisible := !w.s.Node.Lenient
+		for _, e := range f.cloud {
+			if e.ID == id && e.Type != aliyunClient.ENITypeSecondary {
+				invisible = true
+			}
+		}
+		if !w.everRecorded[id] || !invisible {
 			return ""
 		}
 	}
